@@ -7,7 +7,7 @@ import (
 	"strings"
 )
 
-var siteRe = regexp.MustCompile(`(?m)^(tags\.cncf\.io/container-device-interface[^\s(]*|github\.com/[^\s(]*|gopkg\.in/[^\s(]*|sigs\.k8s\.io/[^\s(]*)\(`)
+var siteRe = regexp.MustCompile(`(?m)^((?:tags\.cncf\.io/container-device-interface|github\.com/|gopkg\.in/|sigs\.k8s\.io/)\S*)\(`)
 
 // PanicSite extracts the innermost non-runtime function of a panic stack: the call site
 // that identifies a crash class.
